@@ -48,6 +48,11 @@ pub uninterp spec fn u256_max() -> U256;
 pub assume_specification[ U256::ZERO ] -> (r: U256) ensures r == u256_zero();
 pub assume_specification[ U256::ONE ] -> (r: U256) ensures r == u256_one();
 pub assume_specification[ U256::MAX ] -> (r: U256) ensures r == u256_max();
+// robustness shim (A-STD, not used by the pinned text): usize::div_ceil / usize::max / usize::min as core defines them — so that an edit that
+// rounds or combines widths reaches the contracts
+pub assume_specification[ usize::div_ceil ](a: usize, b: usize) -> (r: usize)
+    requires b != 0,
+    ensures r as int == (if a % b == 0 { (a / b) as int } else { a / b + 1 });
 // robustness shim (A-STD): Option::or as core defines it
 pub assume_specification<T>[ Option::<T>::or ](a: Option<T>, b: Option<T>) -> (r: Option<T>)
     ensures r == (if a is Some { a } else { b });
